@@ -4,6 +4,7 @@ package service
 // sender address form; upstream datagram parsing for arbitrary plaintext.
 
 import (
+	"errors"
 	"net"
 	"sync"
 	"time"
@@ -199,7 +200,11 @@ func VH_C18_accept_error_isolation() {
 	ml := NewMultiStreamListener("127.0.0.1:0", nil)
 	h, err := ml.Acquire()
 	verifAssert("C18.accept-error.acquire", err == nil)
-	tl := ml.(*multiStreamListener).ln.(*TCPListener).ln
+	msl, isMSL := ml.(*multiStreamListener)
+	verifAssume(isMSL) // otherwise this harness does not apply
+	tcpl, isTCPL := msl.ln.(*TCPListener)
+	verifAssume(isTCPL)
+	tl := tcpl.ln
 	r1 := verifAcceptAsync(h)
 	verifQuiesce()
 	tl.SetDeadline(time.Unix(1, 0)) // accept now fails with a timeout error
@@ -207,7 +212,7 @@ func VH_C18_accept_error_isolation() {
 	verifAssert("C18.accept-error.delivered-as-error", len(r1) == 1)
 	if len(r1) == 1 {
 		a := <-r1
-		verifAssert("C18.accept-error.not-errclosed", a.err != nil && a.err != net.ErrClosed)
+		verifAssert("C18.accept-error.not-errclosed", a.err != nil && !errors.Is(a.err, net.ErrClosed))
 	}
 	tl.SetDeadline(time.Time{})
 	// the listener is still serving
@@ -217,7 +222,7 @@ func VH_C18_accept_error_isolation() {
 		verifQuiesce()
 		if len(r2) == 1 {
 			a := <-r2
-			if a.err == nil || a.err == net.ErrClosed {
+			if a.err == nil || errors.Is(a.err, net.ErrClosed) {
 				r2 <- a
 				break
 			}
